@@ -14,6 +14,25 @@ def main():
     logging.disable(logging.CRITICAL)
     mod = importlib.import_module('harness.monitors.' + module)
     chunk = json.load(open(inp))
+    # reach counters: how often each function of the repository was ENTERED during this shard (sys.monitoring PY_START; code
+    # outside moPepGen disables itself on first entry, so the cost stays at a few per cent)
+    reach = {}
+    mon = getattr(sys, 'monitoring', None)
+    if mon is not None and os.environ.get('VERIF_REACH', '1') == '1':
+        try:
+            mon.use_tool_id(3, 'verif-reach')
+
+            def on_start(code, offset):
+                fn = code.co_filename
+                k = fn.find('/moPepGen/')
+                if k < 0:
+                    return mon.DISABLE
+                key = fn[k + 1:] + ':' + code.co_qualname
+                reach[key] = reach.get(key, 0) + 1
+            mon.register_callback(3, mon.events.PY_START, on_start)
+            mon.set_events(3, mon.events.PY_START)
+        except Exception:
+            mon = None
     with open(out, 'w') as fh:
         for j, spec in chunk:
             try:
@@ -25,6 +44,8 @@ def main():
             r.setdefault('spec', spec)
             fh.write(json.dumps([j, r], default=str) + '\n')
             fh.flush()
+        if reach:
+            fh.write(json.dumps([-1, {'reach': reach}]) + '\n')
 
 
 if __name__ == '__main__':
